@@ -40,6 +40,8 @@ def gen_case(rng, nexp, npep, ns=0, consistent=True, graph=None, minr=None, stab
     precs = []
     for p in range(npep):
         name = prefix + "ACDEFGHIKL"[p % 10] + ("(ox)" if p >= 10 else "") + "K"
+        if npep > 20:           # large proteins: one distinct sequence per peptide
+            name = prefix + "".join("ACDEFGHIKL"[int(dg)] for dg in str(p)) + "K"
         for ch in ([2, 3] if rng.random() < 0.3 else [2]):
             fracs = ["1", "2"] if rng.random() < 0.25 else ["1"]
             for s in (range(nexp) if samples is None else samples):
@@ -78,7 +80,7 @@ class StagedSuite(Suite):
     runf = "run11"
     deterministic = False
     has_py_property = True
-    rule = ("protein groups with 1-8 peptides (modified forms, 1-2 charge states, 1-2 fractions, weaker duplicate features, NaN / zero "
+    rule = ("protein groups with 1-8 peptides (two large proteins per run: 130-300 precursors in every sample; modified forms, 1-2 charge states, 1-2 fractions, weaker duplicate features, NaN / zero "
             "intensities, match-between-runs rows, PSMs above the PEP cutoff) over 2-8 samples (thorough: up to 14), intensities = peptide "
             "factor x sample factor on an integer grid, with and without multiplicative noise, missing values 0-60%; minimum ratio count "
             "1-3; stabilisation on / off; FastLFQ edge sets (random, with activation sizes 2, 3, 10); SILAC 2 / 3 channels; stages compared: "
@@ -88,6 +90,12 @@ class StagedSuite(Suite):
     def gen(self, rng, tier):
         n = core.tier_n(tier, 260, 4000)
         for k in range(n):
+            if k < (2 if tier != "thorough" else 8):
+                # a large protein: 130-300 precursors shared by every pair of samples (counts beyond one signed / unsigned byte)
+                c = gen_case(rng, rng.choice([3, 4]), rng.choice([130, 200, 260, 300]), consistent=k % 2 == 0, miss=0.0, clean=True, stab=False)
+                c["minr"] = rng.choice([1, 2])
+                yield c
+                continue
             big = tier == "thorough" and k % 5 == 0
             nexp = rng.randint(9, 14) if big else rng.randint(2, 8)
             ns = rng.choice([0, 0, 0, 0, 2, 3]) if nexp <= 5 else 0
@@ -241,16 +249,7 @@ class StagedSuite(Suite):
         final = out["final"]
         if not all(math.isfinite(x) and x >= 0 for x in final):
             return "lfq-non-finite-or-negative"
-        if not any(x > 0 for x in final):
-            return None
-        tot = self._total_used(case)
-        if abs(sum(final) - tot) > 1e-9 * tot:
-            return "lfq-total-not-preserved"
         logs = {tuple(k): v for k, v in out.get("logs", [])}
-        nodes = {i for k in logs for i in k}
-        for k in range(len(final)):
-            if (final[k] > 0) != (k in nodes):
-                return "lfq-unlinked-sample-not-zero"
         if case["ns"] == 0:
             # the ratio edges are exactly the sample pairs with enough own and shared peptides that the FastLFQ graph links
             rows = cell_matrix(case["precs"], float(Fraction(case["cut"])), len(case["names"]))
@@ -262,6 +261,15 @@ class StagedSuite(Suite):
                     if (not active or (i, j) in gset) and sum(1 for v in rows.values() if v[i] > 0 and v[j] > 0) >= case["minr"]}
             if want != set(logs):
                 return "lfq-ratio-edges-are-not-the-linked-pairs-with-enough-shared-peptides"
+        if not any(x > 0 for x in final):
+            return "lfq-all-zero-although-sample-pairs-are-linked" if logs else None
+        tot = self._total_used(case)
+        if abs(sum(final) - tot) > 1e-9 * tot:
+            return "lfq-total-not-preserved"
+        nodes = {i for k in logs for i in k}
+        for k in range(len(final)):
+            if (final[k] > 0) != (k in nodes):
+                return "lfq-unlinked-sample-not-zero"
         # least squares: normal equations at the answer
         x = {k: math.log(final[k]) for k in nodes}
         for k in nodes:
